@@ -29,12 +29,46 @@ theorem backupName_ne_nil (o : Options) (p : Bytes) : backupName o p ≠ [] := b
     were, with that hypothesis added), and exactly one directory, missing (`makeBackupFor_existing_mkdir`: `-B bak/` in a tree
     without `bak`). -/
 
-/-- the backup of an existing regular file, after `ensure_parent_directories` has led from `s` (with the bookkeeping done) to `s1` -/
+/-- `rename a b` in the model: needs `a` to be there, the directory of `b` to be a directory, and `b` not to be a directory (what is
+    renamed is a file: a directory is only replaced by a directory, EISDIR); whatever else is at `b` is replaced -/
+theorem apply_rename_nondir {fs : Fs} {a b : Bytes} {n : Node} (h : fs.lookup a = some n)
+    (hdir : fs.dirExists (parentOf b) = true) (hnd : ∀ m, fs.lookup b ≠ some (.dir m)) :
+    fs.apply (.rename a b) = .ok ((fs.erase a).set b n) := by
+  simp only [Fs.apply, h, hdir, Bool.not_true, Bool.false_eq_true, if_false]
+  rw [if_neg]
+  intro hc
+  split at hc
+  · cases hc
+  · next _ _ m hb _ => exact absurd hb (hnd m)
+  · cases hc
+
+/-- the directory part of a non-empty path is not the path -/
+theorem parentOf_ne_self {p : Bytes} (hp : p ≠ []) : parentOf p ≠ p := by
+  intro e
+  have h1 : (p.reverse.dropWhile (· != SLASHB)).length ≤ p.length := by
+    have := (List.dropWhile_sublist (l := p.reverse) (· != SLASHB)).length_le
+    simpa using this
+  have h2 : 0 < p.length := List.length_pos_iff.2 hp
+  have h3 := congrArg List.length e
+  unfold parentOf at h3
+  simp only [List.length_reverse, List.length_drop] at h3
+  omega
+
+theorem absPath_ne_nil (s : DState) {p : Bytes} (hp : p ≠ []) : absPath s p ≠ [] := by
+  unfold absPath
+  split
+  · exact hp
+  · simp
+
+/-- the backup of an existing regular file, after `ensure_parent_directories` has led from `s` (with the bookkeeping done) to `s1`.
+    CHANGED with the model change "a file is not renamed onto a directory" (`Fs.apply (.rename …)`: EISDIR): `hnd`, the backup name is
+    not that of a directory, is new -/
 theorem makeBackupFor_after_dirs (o : Options) (p : Bytes) (s s1 : DState) (b : Bytes) (m : Nat)
     (hnot : ¬ s.backedUp.contains (backupName o p) = true)
     (hens : (ensureParentDirs (backupName o p)).run { s with backedUp := s.backedUp ++ [backupName o p] } = (.ok (), s1))
     (hfile : s1.fs.lookup (absPath s p) = some (.file b m))
     (hdir : s1.fs.dirExists (parentOf (absPath s (backupName o p))) = true)
+    (hnd : ∀ m', s1.fs.lookup (absPath s (backupName o p)) ≠ some (.dir m'))
     (hne : absPath s (backupName o p) ≠ absPath s p)
     (hf : s.faultAt = none) :
     ∃ s', (makeBackupFor o p).run s = (.ok (), s') ∧
@@ -45,10 +79,11 @@ theorem makeBackupFor_after_dirs (o : Options) (p : Bytes) (s s1 : DState) (b : 
   obtain ⟨⟨fs', t, n, rfl⟩, -⟩ := ensureParentDirs_shape _ hens
   have hfile : fs'.lookup (absPath s p) = some (.file b m) := hfile
   have hdir : fs'.dirExists (parentOf (absPath s (backupName o p))) = true := hdir
+  have hnd : ∀ m', fs'.lookup (absPath s (backupName o p)) ≠ some (.dir m') := hnd
   have hst := Fs.stat_of_file hfile
   have happ : fs'.apply (.rename (absPath s p) (absPath s (backupName o p))) =
-      .ok ((fs'.erase (absPath s p)).set (absPath s (backupName o p)) (.file b m)) := by
-    simp only [Fs.apply, hfile, hdir]; rfl
+      .ok ((fs'.erase (absPath s p)).set (absPath s (backupName o p)) (.file b m)) :=
+    apply_rename_nondir hfile hdir hnd
   refine ⟨{ s with backedUp := s.backedUp ++ [backupName o p],
                    fs := (fs'.erase (absPath s p)).set (absPath s (backupName o p)) (.file b m),
                    trace := t ++ [FsOp.rename (absPath s p) (absPath s (backupName o p))],
@@ -68,12 +103,14 @@ theorem makeBackupFor_after_dirs (o : Options) (p : Bytes) (s s1 : DState) (b : 
 
 /-- the first backup of an existing regular file moves its bytes and mode to the backup name; the target path is then free.
     (The directories of the backup name are all there: `hdirs`, new — the statement was without it, when `make_backup_for` did not
-    look at them; without it the operations may start with `mkdir`s: `makeBackupFor_existing_mkdir`.) -/
+    look at them; without it the operations may start with `mkdir`s: `makeBackupFor_existing_mkdir`.  `hnd`, new: the backup name is
+    not that of a directory — a file is not renamed onto a directory any more.) -/
 theorem makeBackupFor_existing (o : Options) (p : Bytes) (s : DState) (b : Bytes) (m : Nat)
     (hnot : ¬ s.backedUp.contains (backupName o p) = true)
     (hfile : s.fs.lookup (absPath s p) = some (.file b m))
     (hdirs : ∀ d ∈ dirPrefixes (backupName o p), (s.fs.lookup (absPath s d)).isSome = true)
     (hdir : s.fs.dirExists (parentOf (absPath s (backupName o p))) = true)
+    (hnd : ∀ m', s.fs.lookup (absPath s (backupName o p)) ≠ some (.dir m'))
     (hne : absPath s (backupName o p) ≠ absPath s p)
     (hf : s.faultAt = none) :
     ∃ s', (makeBackupFor o p).run s = (.ok (), s') ∧
@@ -84,7 +121,7 @@ theorem makeBackupFor_existing (o : Options) (p : Bytes) (s : DState) (b : Bytes
   makeBackupFor_after_dirs o p s
     { s with backedUp := s.backedUp ++ [backupName o p], opCount := s.opCount + (dirPrefixes (backupName o p)).length } b m hnot
     (ensureParentDirs_run_exist (backupName o p) { s with backedUp := s.backedUp ++ [backupName o p] } (backupName_ne_nil o p) hf hdirs)
-    hfile hdir hne hf
+    hfile hdir hnd hne hf
 
 /-- **`-B bak/` and no directory `bak` yet**: the backup name has exactly one directory `d`, which is missing (its own parent is
     there): `make_backup_for` creates it and then moves the file there — `mkdir d`, `rename p (backup name)` -/
@@ -95,6 +132,7 @@ theorem makeBackupFor_existing_mkdir (o : Options) (p d : Bytes) (s : DState) (b
     (hnew : s.fs.lookup (absPath s d) = none)
     (hpar : s.fs.dirExists (parentOf (absPath s d)) = true)
     (hin : parentOf (absPath s (backupName o p)) = absPath s d)
+    (hnd : ∀ m', s.fs.lookup (absPath s (backupName o p)) ≠ some (.dir m'))
     (hne : absPath s (backupName o p) ≠ absPath s p)
     (hf : s.faultAt = none) :
     ∃ s', (makeBackupFor o p).run s = (.ok (), s') ∧
@@ -104,6 +142,8 @@ theorem makeBackupFor_existing_mkdir (o : Options) (p d : Bytes) (s : DState) (b
       s'.trace = s.trace ++ [FsOp.mkdir (absPath s d), FsOp.rename (absPath s p) (absPath s (backupName o p))] := by
   have hpd : absPath s p ≠ absPath s d := by
     intro e; rw [e, hnew] at hfile; cases hfile
+  have hbd : absPath s (backupName o p) ≠ absPath s d := by
+    rw [← hin]; exact (parentOf_ne_self (absPath_ne_nil s (backupName_ne_nil o p))).symm
   obtain ⟨s', h1, h2, h3, h4, h5⟩ := makeBackupFor_after_dirs o p s
     { s with backedUp := s.backedUp ++ [backupName o p],
              fs := s.fs.set (absPath s d) (.dir (0o777 - (0o777 &&& s.fs.umask))),
@@ -115,6 +155,9 @@ theorem makeBackupFor_existing_mkdir (o : Options) (p d : Bytes) (s : DState) (b
     (by show Fs.dirExists (Fs.set s.fs (absPath s d) _) _ = true
         rw [hin]; unfold Fs.dirExists
         rw [Fs.lookup_set_self]; simp)
+    (by intro m'
+        show (Fs.set s.fs (absPath s d) _).lookup _ ≠ _
+        rw [Fs.lookup_set_ne _ _ _ _ hbd]; exact hnd m')
     hne hf
   exact ⟨s', h1, h2, h3, h4, by rw [h5]; show (s.trace ++ [_]) ++ [_] = _; rw [List.append_assoc]; rfl⟩
 
@@ -125,15 +168,19 @@ example : ∃ s', (makeBackupFor { defaultOptions with backupPrefix := [98, 97, 
     s'.trace = [FsOp.mkdir [98, 97, 107], FsOp.rename [102] [98, 97, 107, 47, 102]] := by
   obtain ⟨s', h1, h2, h3, -, h5⟩ := makeBackupFor_existing_mkdir { defaultOptions with backupPrefix := [98, 97, 107, 47] } [102]
     [98, 97, 107] { fs := { nodes := [([102], .file [97, 10] 0o644)] } } [97, 10] 0o644 (by decide) (by decide) (by decide) (by decide)
-    (by decide) (by decide) (by decide) rfl
+    (by decide) (by decide) (fun m' h => by rw [show Fs.lookup _ _ = none from by decide] at h; cases h) (by decide) rfl
   exact ⟨s', h1, h2, h3, h5⟩
 
-/-- a target that does not exist yields an empty backup file, after `ensure_parent_directories` has led to `s1` -/
+/-- a target that does not exist yields an empty backup file, after `ensure_parent_directories` has led to `s1`.
+    CHANGED with the model change `remove_symbolic_link` (D95): `hnl`, the backup name is not that of a symbolic link, is new — `hnone`
+    allows a dangling link, which is now removed first: `makeBackupFor_missing_replaces_link` below is the statement for a link.
+    (`make_way_for`, D101, removes a regular file of that name as well — `hnone` excludes that: `makeBackupFor_missing_replaces_file`.) -/
 theorem makeBackupFor_absent_after_dirs (o : Options) (p : Bytes) (s s1 : DState)
     (hnot : ¬ s.backedUp.contains (backupName o p) = true)
     (hens : (ensureParentDirs (backupName o p)).run { s with backedUp := s.backedUp ++ [backupName o p] } = (.ok (), s1))
     (habs : s1.fs.stat (absPath s p) = none)
     (hnone : s1.fs.stat (absPath s (backupName o p)) = none)
+    (hnl : ∀ t, s1.fs.lookup (absPath s (backupName o p)) ≠ some (.symlink t))
     (hdir : s1.fs.dirExists (parentOf (absPath s (backupName o p))) = true)
     (hf : s.faultAt = none) :
     ∃ s' m, (makeBackupFor o p).run s = (.ok (), s') ∧
@@ -143,6 +190,7 @@ theorem makeBackupFor_absent_after_dirs (o : Options) (p : Bytes) (s s1 : DState
   have habs : fs'.stat (absPath s p) = none := habs
   have hnone : fs'.stat (absPath s (backupName o p)) = none := hnone
   have hdir : fs'.dirExists (parentOf (absPath s (backupName o p))) = true := hdir
+  have hnl : ∀ t, fs'.lookup (absPath s (backupName o p)) ≠ some (.symlink t) := hnl
   have happ : fs'.apply (.creat (absPath s (backupName o p))) =
       .ok (fs'.set (absPath s (backupName o p)) (.file [] (0o666 - (0o666 &&& fs'.umask)))) := by
     simp only [Fs.apply, hnone, hdir]; rfl
@@ -155,7 +203,11 @@ theorem makeBackupFor_absent_after_dirs (o : Options) (p : Bytes) (s s1 : DState
     have e1 : ∀ q, absPath { s with backedUp := s.backedUp ++ [backupName o p], fs := fs', trace := t, opCount := n } q = absPath s q :=
       fun _ => rfl
     simp only [e1]
-    rw [habs, if_neg (by simp)]
+    have hnf : ∀ b m, fs'.lookup (absPath s (backupName o p)) ≠ some (.file b m) := fun b m h => by
+      rw [Fs.stat_of_file h] at hnone; cases hnone
+    rw [habs, if_neg (by simp), if_neg (by
+      rw [inWayAt_of_free (s := { s with backedUp := s.backedUp ++ [backupName o p], fs := fs', trace := t, opCount := n }) hnl hnf]
+      simp)]
     exact doOp_run_ok (s := { s with backedUp := s.backedUp ++ [backupName o p], fs := fs', trace := t, opCount := n }) hf happ
   · exact Fs.lookup_set_self _ _ _
 
@@ -164,6 +216,7 @@ theorem makeBackupFor_absent (o : Options) (p : Bytes) (s : DState)
     (hnot : ¬ s.backedUp.contains (backupName o p) = true)
     (habs : s.fs.stat (absPath s p) = none)
     (hnone : s.fs.stat (absPath s (backupName o p)) = none)
+    (hnl : ∀ t, s.fs.lookup (absPath s (backupName o p)) ≠ some (.symlink t))
     (hdirs : ∀ d ∈ dirPrefixes (backupName o p), (s.fs.lookup (absPath s d)).isSome = true)
     (hdir : s.fs.dirExists (parentOf (absPath s (backupName o p))) = true)
     (hf : s.faultAt = none) :
@@ -173,7 +226,99 @@ theorem makeBackupFor_absent (o : Options) (p : Bytes) (s : DState)
   makeBackupFor_absent_after_dirs o p s
     { s with backedUp := s.backedUp ++ [backupName o p], opCount := s.opCount + (dirPrefixes (backupName o p)).length } hnot
     (ensureParentDirs_run_exist (backupName o p) { s with backedUp := s.backedUp ++ [backupName o p] } (backupName_ne_nil o p) hf hdirs)
-    habs hnone hdir hf
+    habs hnone hnl hdir hf
+
+/-- **the empty backup of a file which did not exist is neither written through a symbolic link nor into a regular file (which may have
+    other names)** (D95, D101, `make_way_for`): the backup name is that of a symbolic link or of a regular file (the directories of the
+    backup name are all there): it is unlinked and a new, empty regular file is created in its place — the trace is exactly
+    `[unlink bn, creat bn]` —; every other name, in particular whatever a link pointed to, keeps its node -/
+theorem makeBackupFor_missing_replaces (o : Options) (p : Bytes) (n : Node) (s : DState)
+    (hnot : ¬ s.backedUp.contains (backupName o p) = true)
+    (habs : s.fs.stat (absPath s p) = none)
+    (hl : s.fs.lookup (absPath s (backupName o p)) = some n) (hn : (∃ t, n = .symlink t) ∨ ∃ old m, n = .file old m)
+    (hdirs : ∀ d ∈ dirPrefixes (backupName o p), (s.fs.lookup (absPath s d)).isSome = true)
+    (hdir : s.fs.dirExists (parentOf (absPath s (backupName o p))) = true)
+    (hf : s.faultAt = none) :
+    ∃ s', (makeBackupFor o p).run s = (.ok (), s') ∧
+      s'.trace = s.trace ++ [FsOp.unlink (absPath s (backupName o p)), FsOp.creat (absPath s (backupName o p))] ∧
+      s'.fs.lookup (absPath s (backupName o p)) = some (.file [] (0o666 - (0o666 &&& s.fs.umask))) ∧
+      (∀ q, q ≠ absPath s (backupName o p) → s'.fs.lookup q = s.fs.lookup q) ∧
+      s'.backedUp.contains (backupName o p) = true := by
+  have hunl : s.fs.apply (.unlink (absPath s (backupName o p))) = .ok (s.fs.erase (absPath s (backupName o p))) := by
+    rcases hn with ⟨t, rfl⟩ | ⟨old, m, rfl⟩ <;> simp only [Fs.apply, hl]
+  have hway : inWayAt { s with backedUp := s.backedUp ++ [backupName o p], opCount := s.opCount + (dirPrefixes (backupName o p)).length }
+      (backupName o p) = true := by
+    rcases hn with ⟨t, rfl⟩ | ⟨old, m, rfl⟩
+    · exact inWayAt_of_link (s := { s with backedUp := s.backedUp ++ [backupName o p], opCount := s.opCount + (dirPrefixes (backupName o p)).length }) hl
+    · exact inWayAt_of_file (s := { s with backedUp := s.backedUp ++ [backupName o p], opCount := s.opCount + (dirPrefixes (backupName o p)).length }) hl
+  have hcr : (s.fs.erase (absPath s (backupName o p))).apply (.creat (absPath s (backupName o p))) =
+      .ok ((s.fs.erase (absPath s (backupName o p))).set (absPath s (backupName o p)) (.file [] (0o666 - (0o666 &&& s.fs.umask)))) := by
+    have hst : (s.fs.erase (absPath s (backupName o p))).stat (absPath s (backupName o p)) = none := by
+      unfold Fs.stat; rw [Fs.lookup_erase_self]
+    have hd : (s.fs.erase (absPath s (backupName o p))).dirExists (parentOf (absPath s (backupName o p))) = true := by
+      unfold Fs.dirExists at hdir ⊢
+      rw [Fs.lookup_erase_ne _ _ _ (parentOf_ne_self (absPath_ne_nil s (backupName_ne_nil o p)))]; exact hdir
+    simp only [Fs.apply, hst, hd]; rfl
+  rw [makeBackupFor_run, if_neg hnot,
+    ensureParentDirs_run_exist (backupName o p) { s with backedUp := s.backedUp ++ [backupName o p] } (backupName_ne_nil o p) hf hdirs]
+  simp only []
+  have e1 : ∀ (bu : List Bytes) (n : Nat) q, absPath { s with backedUp := bu, opCount := n } q = absPath s q := fun _ _ _ => rfl
+  simp only [e1]
+  rw [habs, if_neg (by simp), if_pos hway,
+    doOp_run_ok (s := { s with backedUp := s.backedUp ++ [backupName o p], opCount := s.opCount + (dirPrefixes (backupName o p)).length }) hf hunl]
+  simp only []
+  rw [doOp_run_ok (s := { s with backedUp := s.backedUp ++ [backupName o p], fs := s.fs.erase (absPath s (backupName o p)), trace := s.trace ++ [.unlink (absPath s (backupName o p))], opCount := s.opCount + (dirPrefixes (backupName o p)).length + 1 }) hf hcr]
+  refine ⟨_, rfl, by simp, Fs.lookup_set_self _ _ _, fun q hq => ?_, by simp⟩
+  show ((s.fs.erase (absPath s (backupName o p))).set (absPath s (backupName o p)) _).lookup q = _
+  rw [Fs.lookup_set_ne _ _ _ _ hq, Fs.lookup_erase_ne _ _ _ hq]
+
+/-- the symbolic link (D95) -/
+theorem makeBackupFor_missing_replaces_link (o : Options) (p t : Bytes) (s : DState)
+    (hnot : ¬ s.backedUp.contains (backupName o p) = true)
+    (habs : s.fs.stat (absPath s p) = none)
+    (hl : s.fs.lookup (absPath s (backupName o p)) = some (.symlink t))
+    (hdirs : ∀ d ∈ dirPrefixes (backupName o p), (s.fs.lookup (absPath s d)).isSome = true)
+    (hdir : s.fs.dirExists (parentOf (absPath s (backupName o p))) = true)
+    (hf : s.faultAt = none) :
+    ∃ s', (makeBackupFor o p).run s = (.ok (), s') ∧
+      s'.trace = s.trace ++ [FsOp.unlink (absPath s (backupName o p)), FsOp.creat (absPath s (backupName o p))] ∧
+      s'.fs.lookup (absPath s (backupName o p)) = some (.file [] (0o666 - (0o666 &&& s.fs.umask))) ∧
+      (∀ q, q ≠ absPath s (backupName o p) → s'.fs.lookup q = s.fs.lookup q) ∧
+      s'.backedUp.contains (backupName o p) = true :=
+  makeBackupFor_missing_replaces o p _ s hnot habs hl (.inl ⟨t, rfl⟩) hdirs hdir hf
+
+/-- the regular file (D101): an old backup, say, which may have other names: it is not truncated in place -/
+theorem makeBackupFor_missing_replaces_file (o : Options) (p old : Bytes) (m : Nat) (s : DState)
+    (hnot : ¬ s.backedUp.contains (backupName o p) = true)
+    (habs : s.fs.stat (absPath s p) = none)
+    (hl : s.fs.lookup (absPath s (backupName o p)) = some (.file old m))
+    (hdirs : ∀ d ∈ dirPrefixes (backupName o p), (s.fs.lookup (absPath s d)).isSome = true)
+    (hdir : s.fs.dirExists (parentOf (absPath s (backupName o p))) = true)
+    (hf : s.faultAt = none) :
+    ∃ s', (makeBackupFor o p).run s = (.ok (), s') ∧
+      s'.trace = s.trace ++ [FsOp.unlink (absPath s (backupName o p)), FsOp.creat (absPath s (backupName o p))] ∧
+      s'.fs.lookup (absPath s (backupName o p)) = some (.file [] (0o666 - (0o666 &&& s.fs.umask))) ∧
+      (∀ q, q ≠ absPath s (backupName o p) → s'.fs.lookup q = s.fs.lookup q) ∧
+      s'.backedUp.contains (backupName o p) = true :=
+  makeBackupFor_missing_replaces o p _ s hnot habs hl (.inr ⟨old, m, rfl⟩) hdirs hdir hf
+
+/-- a concrete instance (compiled evaluation of the executable model: a test, not a proof): `-b`, no file `f`, `f.orig` is a link to
+    `victim`: the link is replaced by the empty backup, `victim` is as it was -/
+def sLinkBak : DState :=
+  { fs := { nodes := [(str "f.orig", .symlink (str "victim")), (str "victim", .file (str "keep\n") 0o600)] } }
+#guard ((makeBackupFor defaultOptions (str "f")).run sLinkBak).2.trace == [.unlink (str "f.orig"), .creat (str "f.orig")]
+#guard ((makeBackupFor defaultOptions (str "f")).run sLinkBak).2.fs.lookup (str "victim") == some (.file (str "keep\n") 0o600)
+#guard ((makeBackupFor defaultOptions (str "f")).run sLinkBak).2.fs.lookup (str "f.orig") == some (.file [] 0o644)
+/-- the same with a regular file `f.orig` (an old backup, not writable): replaced, not truncated in place (D101) -/
+def sFileBak : DState := { fs := { nodes := [(str "f.orig", .file (str "old\n") 0o400)] } }
+#guard ((makeBackupFor defaultOptions (str "f")).run sFileBak).2.trace == [.unlink (str "f.orig"), .creat (str "f.orig")]
+#guard ((makeBackupFor defaultOptions (str "f")).run sFileBak).2.fs.lookup (str "f.orig") == some (.file [] 0o644)
+/-- … and a file is not renamed onto a directory: `f` is there, `f.orig` is a directory: the backup fails, nothing has happened -/
+def sDirBak : DState :=
+  { fs := { nodes := [(str "f", .file (str "a\n") 0o644), (str "f.orig", .dir 0o755)] } }
+#guard (match ((makeBackupFor defaultOptions (str "f")).run sDirBak).1 with | .error .systemError => true | _ => false)
+#guard ((makeBackupFor defaultOptions (str "f")).run sDirBak).2.trace == []
+#guard ((makeBackupFor defaultOptions (str "f")).run sDirBak).2.fs.lookup (str "f") == some (.file (str "a\n") 0o644)
 
 /-- several patches for one file: only the first backup is made — a later call for the same backup name does nothing at all -/
 theorem makeBackupFor_again (o : Options) (p : Bytes) (s : DState) (hin : s.backedUp.contains (backupName o p) = true) :
@@ -248,13 +393,14 @@ theorem finalizeRemoval_plain (o : Options) (dWrites : List DeferredWrite) (p : 
 
 /-- **backup due, regular file, backup name not used yet (its directories are there: `hdirs`, new): the step is exactly
     `rename p (backupName o p)`** — the file, bytes and mode, is found under its backup name afterwards, the path is free, and
-    there is no `unlink` of it -/
+    there is no `unlink` of it (`hnd`, new: the backup name is not that of a directory, see `makeBackupFor_existing`) -/
 theorem finalizeRemoval_backup (o : Options) (dWrites : List DeferredWrite) (p : Bytes) (s : DState) (b : Bytes) (m : Nat)
     (hw : dWrites.any (·.dest == p) = false)
     (hnot : ¬ s.backedUp.contains (backupName o p) = true)
     (hfile : s.fs.lookup (absPath s p) = some (.file b m))
     (hdirs : ∀ d ∈ dirPrefixes (backupName o p), (s.fs.lookup (absPath s d)).isSome = true)
     (hdir : s.fs.dirExists (parentOf (absPath s (backupName o p))) = true)
+    (hnd : ∀ m', s.fs.lookup (absPath s (backupName o p)) ≠ some (.dir m'))
     (hne : absPath s (backupName o p) ≠ absPath s p)
     (hf : s.faultAt = none) :
     ∃ s', (finalizeRemoval o dWrites (p, true)).run s = (.ok (), s') ∧
@@ -262,7 +408,7 @@ theorem finalizeRemoval_backup (o : Options) (dWrites : List DeferredWrite) (p :
       s'.fs.lookup (absPath s (backupName o p)) = some (.file b m) ∧
       s'.fs.lookup (absPath s p) = none ∧
       s'.backedUp.contains (backupName o p) = true := by
-  obtain ⟨s', hrun, hbak, hgone, hbu, htr⟩ := makeBackupFor_existing o p s b m hnot hfile hdirs hdir hne hf
+  obtain ⟨s', hrun, hbak, hgone, hbu, htr⟩ := makeBackupFor_existing o p s b m hnot hfile hdirs hdir hnd hne hf
   have hcwd : s'.cwd = s.cwd := (backupStep_shape o true p (s := s) (by rw [if_pos rfl]; exact hrun)).1
   refine ⟨s', ?_, htr, hbak, hgone, hbu⟩
   unfold finalizeRemoval removeNow
@@ -324,9 +470,8 @@ theorem finalizeRemoval_backup_only (o : Options) (dWrites : List DeferredWrite)
       · have hfs : fs' = (fs0.erase (absPath s p)).set (absPath s (backupName o p)) (.file b m) := by
           have happ : fs0.apply (.rename (absPath s p) (absPath s (backupName o p))) = .ok fs' := happ
           simp only [Fs.apply, hfile0] at happ
-          split at happ
-          · cases happ
-          · cases happ; rfl
+          repeat' split at happ
+          all_goals first | (cases happ; done) | (cases happ; rfl)
         simp only [] at h
         rw [run_bind, run_fsExists] at h
         simp only [] at h
@@ -389,7 +534,13 @@ theorem finalizeRemoval_again (o : Options) (dWrites : List DeferredWrite) (p : 
     has succeeded** — not even the `chmod` of `make_writable` —; if none is due, none is made; on success the target has been created.
 
     CHANGED with the model change "the backup is taken before `make_writable`" (D93): the `chmod` of `make_writable` was part of `pre`
-    (`∀ op ∈ pre, (∃ d, op = mkdir d) ∨ ∃ m, op = chmod out m`); it is a block of its own now, between the backup and the `creat`. -/
+    (`∀ op ∈ pre, (∃ d, op = mkdir d) ∨ ∃ m, op = chmod out m`); it is a block of its own now, between the backup and the `creat`.
+
+    CHANGED with the model change `remove_symbolic_link` (D95): `bk` was `[]`, `[rename out bn]` or `[creat bn]`; the empty backup of a
+    file which did not exist now replaces a symbolic link which has the backup name: `bk` may also be `[unlink bn, creat bn]`, or
+    `[unlink bn]` when the `creat` then failed (`DriverFacts.BackupOps`); as long as the backup has not succeeded (`bk = []` or
+    `bk = [unlink bn]`) nothing happens to the target.  (`make_way_for`, D101: the same when a regular file has the backup name; the
+    statement is as it was.) -/
 theorem writeNow_backup_first {pre : DM Unit} (o : Options) (out : Bytes) (perm : PermResult) (sb : Bool) (content : Bytes) (nm : Nat)
     (hk : ∀ s s1 r, pre.run s = (r, s1) → s1.cwd = s.cwd ∧ s1.backedUp = s.backedUp)
     (ht : TrExt (fun op => ∃ d, op = FsOp.mkdir d) pre)
@@ -397,12 +548,12 @@ theorem writeNow_backup_first {pre : DM Unit} (o : Options) (out : Bytes) (perm 
     (h : (pre >>= fun _ => writeNow o out perm sb content nm).run s = (r, s')) :
     ∃ pre bk mw post, s'.trace = s.trace ++ pre ++ bk ++ mw ++ post ∧
       (∀ op ∈ pre, ∃ d, op = FsOp.mkdir d) ∧
-      (bk = [] ∨ bk = [FsOp.rename (absPath s out) (absPath s (backupName o out))] ∨
-        bk = [FsOp.creat (absPath s (backupName o out))]) ∧
+      BackupOps (absPath s out) (absPath s (backupName o out)) bk ∧
       (mw = [] ∨ ∃ m, mw = [FsOp.chmod (absPath s out) m]) ∧
       (post = [] ∨ ∃ rest, post = FsOp.creat (absPath s out) :: rest ∧
         ∀ op ∈ rest, (∃ b, op = FsOp.write (absPath s out) b) ∨ ∃ m, op = FsOp.chmod (absPath s out) m) ∧
-      (sb = true → s.backedUp.contains (backupName o out) = false → bk = [] → mw = [] ∧ post = []) ∧
+      (sb = true → s.backedUp.contains (backupName o out) = false →
+        bk = [] ∨ bk = [FsOp.unlink (absPath s (backupName o out))] → mw = [] ∧ post = []) ∧
       (sb = false ∨ s.backedUp.contains (backupName o out) = true → bk = []) ∧
       (r = .ok () → post ≠ []) := by
   rw [run_bind] at h
@@ -413,7 +564,8 @@ theorem writeNow_backup_first {pre : DM Unit} (o : Options) (out : Bytes) (perm 
     obtain ⟨-, M, B, W, C, t, hM, hB, hW, hC, hfirst, hnone, hok, -⟩ := writeNow_shape _ _ _ _ _ _ h
     rw [absPath_cwd c1] at hW hC
     rw [absPath_cwd c1, absPath_cwd c1] at hB
-    rw [b1] at hfirst hnone
+    rw [b1, absPath_cwd c1] at hfirst
+    rw [b1] at hnone
     refine ⟨D ++ M, B, W, C, by rw [t, t1]; simp only [List.append_assoc], ?_, hB, hW, hC, hfirst, fun h => (hnone h).2, hok⟩
     intro op hop
     rcases List.mem_append.1 hop with h | h
@@ -434,12 +586,12 @@ theorem finalize_backup_first (o : Options) (w : DeferredWrite) (s s' : DState) 
     (h : (finalizeWrite o w).run s = (r, s')) :
     ∃ pre bk mw post, s'.trace = s.trace ++ pre ++ bk ++ mw ++ post ∧
       (∀ op ∈ pre, ∃ d, op = FsOp.mkdir d) ∧
-      (bk = [] ∨ bk = [FsOp.rename (absPath s w.dest) (absPath s (backupName o w.dest))] ∨
-        bk = [FsOp.creat (absPath s (backupName o w.dest))]) ∧
+      BackupOps (absPath s w.dest) (absPath s (backupName o w.dest)) bk ∧
       (mw = [] ∨ ∃ m, mw = [FsOp.chmod (absPath s w.dest) m]) ∧
       (post = [] ∨ ∃ rest, post = FsOp.creat (absPath s w.dest) :: rest ∧
         ∀ op ∈ rest, (∃ b, op = FsOp.write (absPath s w.dest) b) ∨ ∃ m, op = FsOp.chmod (absPath s w.dest) m) ∧
-      (w.backup = true → s.backedUp.contains (backupName o w.dest) = false → bk = [] → mw = [] ∧ post = []) ∧
+      (w.backup = true → s.backedUp.contains (backupName o w.dest) = false →
+        bk = [] ∨ bk = [FsOp.unlink (absPath s (backupName o w.dest))] → mw = [] ∧ post = []) ∧
       (w.backup = false ∨ s.backedUp.contains (backupName o w.dest) = true → bk = []) ∧
       (r = .ok () → post ≠ []) :=
   writeNow_backup_first o w.dest w.perm w.backup w.content w.newMode
@@ -455,12 +607,12 @@ theorem direct_write_backup_first (o : Options) (p : Patch) (out : Bytes) (perm 
     (h : (writePatchedResult o p out perm sb content).run s = (r, s')) :
     ∃ pre bk mw post, s'.trace = s.trace ++ pre ++ bk ++ mw ++ post ∧
       (∀ op ∈ pre, ∃ d, op = FsOp.mkdir d) ∧
-      (bk = [] ∨ bk = [FsOp.rename (absPath s out) (absPath s (backupName o out))] ∨
-        bk = [FsOp.creat (absPath s (backupName o out))]) ∧
+      BackupOps (absPath s out) (absPath s (backupName o out)) bk ∧
       (mw = [] ∨ ∃ m, mw = [FsOp.chmod (absPath s out) m]) ∧
       (post = [] ∨ ∃ rest, post = FsOp.creat (absPath s out) :: rest ∧
         ∀ op ∈ rest, (∃ b, op = FsOp.write (absPath s out) b) ∨ ∃ m, op = FsOp.chmod (absPath s out) m) ∧
-      (sb = true → s.backedUp.contains (backupName o out) = false → bk = [] → mw = [] ∧ post = []) ∧
+      (sb = true → s.backedUp.contains (backupName o out) = false →
+        bk = [] ∨ bk = [FsOp.unlink (absPath s (backupName o out))] → mw = [] ∧ post = []) ∧
       (sb = false ∨ s.backedUp.contains (backupName o out) = true → bk = []) ∧
       (r = .ok () → post ≠ []) := by
   rw [writePatchedResult_direct o p out perm sb content hc] at h
@@ -481,6 +633,9 @@ end PatchModel.C18
 #print axioms PatchModel.C18.makeBackupFor_existing_mkdir
 #print axioms PatchModel.C18.makeBackupFor_absent_after_dirs
 #print axioms PatchModel.C18.makeBackupFor_absent
+#print axioms PatchModel.C18.makeBackupFor_missing_replaces
+#print axioms PatchModel.C18.makeBackupFor_missing_replaces_link
+#print axioms PatchModel.C18.makeBackupFor_missing_replaces_file
 #print axioms PatchModel.C18.makeBackupFor_again
 #print axioms PatchModel.C18.finalizeDeferred_writes
 #print axioms PatchModel.C18.finalizeRemoval_eq
